@@ -263,7 +263,7 @@ void put_state (mpq_QSdata * p)
 		printf (" bdim=%d,%d rownorms=%d colnorms=%d", p->basis->nstruct, p->basis->nrows, p->basis->rownorms ? 1 : 0, p->basis->colnorms ? 1 : 0);
 	if (p->cache)
 		printf (" cdim=%d,%d cstatus=%d", p->cache->nstruct, p->cache->nrows, p->cache->status);
-	printf (" basisid=%d fbasisid=%d\n", p->lp->basisid, p->lp->fbasisid);
+	printf (" basisid=%d\n", p->lp->basisid);
 }
 
 /* every solution accessor with its return code */
@@ -442,6 +442,12 @@ int main (int argc, char **argv)
 		else if (!strcmp (c, "dumpilp")) dump_ilp (slot ());
 		else if (!strcmp (c, "state")) { mpq_QSdata *p = slot (); put_state (p); put_cache (p); }
 		else if (!strcmp (c, "sol")) put_solution (slot ());
+		else if (!strcmp (c, "getbasis"))
+		{
+			QSbasis *B = mpq_QSget_basis (slot ());
+			put_basis ("basis", B);
+			if (B) mpq_QSfree_basis (B);
+		}
 		else if (!qsx_more_commands (c)) printf ("bad-op %s\n", c);
 		printf (".\n");
 		fflush (stdout);
